@@ -82,6 +82,9 @@ type result struct {
 	NAcc    int                 `json:"n_accesses"`
 	Changed map[string]int      `json:"changed,omitempty"`
 	Positions map[string][]string `json:"positions,omitempty"` // how each scalar parameter was drawn, per parameter set
+	OnTablePoint int            `json:"on_table_point_values"` // inputs / states placed exactly on parameter-table points
+	ViewVariant int             `json:"view_variant"`
+	ViewRuns   int              `json:"view_runs"`
 	SecondRuns int              `json:"second_runs"` // Run called again on the same input/parameter objects
 	Digest  string              `json:"digest,omitempty"` // sha256 of the output and state arrays after the vectorised run
 	Extra   map[string]interface{} `json:"extra,omitempty"`
@@ -180,6 +183,9 @@ func genParamSet(model string, desc sim.ModelDescription, rng *rand.Rand, shared
 		if len(p.Dimensions) == 0 {
 			if isDimName(desc, p.Name) {
 				d := 2 + rng.Intn(3)
+				if mode.kind == "edge" && d < 3 {
+					d = 3 // room for a repeated interior breakpoint
+				}
 				ps.dims[p.Name] = d
 				ps.scalars[p.Name] = float64(d)
 			} else if v, ok := shared[p.Name]; ok {
@@ -189,8 +195,10 @@ func genParamSet(model string, desc sim.ModelDescription, rng *rand.Rand, shared
 			}
 		}
 	}
+	tj := 0
 	for _, p := range desc.Parameters {
 		if len(p.Dimensions) > 0 {
+			tj++
 			n := 1
 			for _, d := range p.Dimensions {
 				n *= ps.dims[d]
@@ -236,6 +244,14 @@ func genParamSet(model string, desc sim.ModelDescription, rng *rand.Rand, shared
 					vals[k] *= 100
 				}
 				ps.pos[p.Name] = "x100"
+			}
+			if mode.kind == "edge" && len(p.Dimensions) == 1 && n >= 3 {
+				// a REPEATED breakpoint (a step in the curve), at a position that differs between the
+				// tables of one model so that abscissa and ordinate tables do not step together
+				// (never the first pair: a zero-width FIRST segment makes the pristine lookup divide 0/0)
+				k := 2 + (mode.rot+tj+c)%(n-2)
+				vals[k] = vals[k-1]
+				ps.pos[p.Name] = "repeated-breakpoint"
 			}
 			ps.tables[p.Name] = vals
 		}
@@ -406,8 +422,10 @@ func runCase(t []string) *result {
 			mode.kind = "out"
 		}
 	}
+	probeVec := false
 	if len(t) > 14 {
 		L.Probe = t[14] == "1"
+		probeVec = t[14] == "2"
 	}
 	res.Model = L.Model
 	res.Layout = L
@@ -496,6 +514,42 @@ func runCase(t []string) *result {
 			I[k] = 10 * rng.Float64()
 		}
 	}
+	// dimensioned models, edge mode: about half of the input values lie EXACTLY on a point of one of the
+	// parameter tables (first, interior, repeated, last) of one of the parameter sets
+	var tablePoints []float64
+	if mode.kind == "edge" {
+		// only points that lie inside the SAME table of every parameter set (a lookup outside a table panics)
+		for _, pd := range desc.Parameters {
+			lo, hi := math.Inf(-1), math.Inf(1)
+			for _, set := range sets {
+				if t := set.tables[pd.Name]; len(t) > 0 {
+					mn, mx := t[0], t[0]
+					for _, v := range t {
+						mn, mx = math.Min(mn, v), math.Max(mx, v)
+					}
+					lo, hi = math.Max(lo, mn), math.Min(hi, mx)
+				}
+			}
+			for _, set := range sets {
+				for _, v := range set.tables[pd.Name] {
+					if v >= lo && v <= hi {
+						tablePoints = append(tablePoints, v)
+					}
+				}
+			}
+		}
+	}
+	rng2 := rand.New(rand.NewSource(L.Seed ^ 0x5eed))
+	if len(tablePoints) > 0 {
+		// every second input value walks through the table points (offset by the rotation), so that
+		// the five rotations put inputs on every point of every table of every set
+		for k := range I {
+			if k%2 == 0 {
+				I[k] = tablePoints[(k/2+7*mode.rot)%len(tablePoints)]
+				res.OnTablePoint++
+			}
+		}
+	}
 	if L.Warm && L.T > 0 {
 		wi, _, _ := goBackend{}.make3([]int{L.NIn, L.NI, L.T}, I)
 		wo := sim.InitialiseOutputs(m0, L.T, L.N)
@@ -506,6 +560,10 @@ func runCase(t []string) *result {
 		for j := 0; j < L.S; j++ {
 			if j < Sinit {
 				S[i*L.S+j] = st0.Get2(i, j)
+				if len(tablePoints) > 0 && Sinit == L.K && rng2.Intn(2) == 0 {
+					S[i*L.S+j] = tablePoints[rng2.Intn(len(tablePoints))] // a state exactly on a table point
+					res.OnTablePoint++
+				}
 			} else {
 				S[i*L.S+j] = canary(1000 + i*L.S + j)
 			}
@@ -526,6 +584,16 @@ func runCase(t []string) *result {
 	}
 	orig := arrays{P: P, S: S, I: I, O: O}
 
+	if probeVec {
+		// only ONE vectorised run on fresh arrays: does the kernel survive this draw when run vectorised?
+		pa, _, _ := be.make2([]int{nP, L.NSets}, orig.P)
+		sa, _, _ := be.make2([]int{L.N, L.S}, orig.S)
+		ia, _, _ := be.make3([]int{L.NIn, L.NI, L.T}, orig.I)
+		oa, _, _ := be.make3([]int{L.ON, L.OK, L.OT}, orig.O)
+		prepModel(L.Model, pa, nil).Run(ia, sa, oa)
+		res.Cmd = "PROBEVEC"
+		return res
+	}
 	if L.Probe {
 		// only the N single-cell runs: does the KERNEL survive these parameter draws at all?
 		// (a kernel panic kills the process; the caller then skips the case)
@@ -647,6 +715,18 @@ func runCase(t []string) *result {
 	}
 	if k := bitsEqual(A.S, A2.S); k >= 0 {
 		fail("two vectorised runs differ in states at %d", k)
+	}
+
+	// (A') the same vectorised run with the arrays handed over as VIEWS of larger tables
+	// (not for an empty series: Unroll of an EMPTY view that does not start at offset 0 computes a
+	// slice end before its start and panics in the array library itself - an observation for C01/C02)
+	if L.N <= 300 && L.T > 0 {
+		variant := int((L.Seed / 7) % 4)
+		for _, f := range runOnViews(L, be, orig, A, nP, variant) {
+			fail("%s", f)
+		}
+		res.ViewVariant = variant
+		res.ViewRuns = 1
 	}
 
 	// (B) N single-cell runs
@@ -1017,6 +1097,126 @@ func outAlloc(t []string) *result {
 	return res
 }
 
+// INITSEQ <Model> n nSets T seed: InitialiseStates on a LONG-LIVED model object.  Every call
+// (before / after Run, same and different n, with and without re-applying the parameters) must
+// return a NEW array equal to what a fresh model object returns, and arrays returned earlier must
+// not change when a later one is written.
+func initSeq(t []string) *result {
+	res := &result{Cmd: "INITSEQ", Ok: true, Model: t[0], Extra: map[string]interface{}{}}
+	fail := func(f string, a ...interface{}) {
+		res.Ok = false
+		if len(res.Fails) < 10 {
+			res.Fails = append(res.Fails, fmt.Sprintf(f, a...))
+		}
+	}
+	n, _ := strconv.Atoi(t[1])
+	nSets, _ := strconv.Atoi(t[2])
+	T, _ := strconv.Atoi(t[3])
+	seed, _ := strconv.ParseInt(t[4], 10, 64)
+	factory := sim.Catalog[t[0]]
+	desc := factory().Description()
+	rng := rand.New(rand.NewSource(seed))
+	shared := map[string]float64{}
+	switch t[0] {
+	case "GR4J":
+		shared["X4"] = 0.5 + 3.5*rng.Float64()
+	case "Lag":
+		shared["timeLag"] = float64(1 + rng.Intn(3))
+	}
+	sets := make([]paramSet, nSets)
+	maxd := map[string]int{}
+	for c := range sets {
+		sets[c] = genParamSet(t[0], desc, rng, shared, drawMode{kind: "std"}, c)
+		for d, v := range sets[c].dims {
+			if v > maxd[d] {
+				maxd[d] = v
+			}
+		}
+	}
+	P, nP := layoutParams(desc, sets, maxd)
+	mk := func() (sim.TimeSteppingModel, data.ND2Float64) {
+		pa, _, _ := goBackend{}.make2([]int{nP, nSets}, P)
+		return prepModel(t[0], pa, nil), pa
+	}
+	flat := func(a data.ND2Float64) []float64 {
+		r := make([]float64, 0, a.Len(0)*a.Len(1))
+		for i := 0; i < a.Len(0); i++ {
+			for j := 0; j < a.Len(1); j++ {
+				r = append(r, a.Get2(i, j))
+			}
+		}
+		return r
+	}
+	freshInit := func(k int) []float64 { m, _ := mk(); return flat(m.InitialiseStates(k)) }
+	runOn := func(m sim.TimeSteppingModel, st data.ND2Float64) {
+		k := st.Len(0)
+		I := make([]float64, k*len(desc.Inputs)*T)
+		for j := range I {
+			I[j] = 1 + 9*rng.Float64()
+		}
+		ia, _, _ := goBackend{}.make3([]int{k, len(desc.Inputs), T}, I)
+		m.Run(ia, st, sim.InitialiseOutputs(m, T, k))
+	}
+	m, pa := mk()
+	type held struct {
+		arr  data.ND2Float64
+		want []float64
+		what string
+	}
+	var earlier []held
+	check := func(what string, k int) data.ND2Float64 {
+		st := m.InitialiseStates(k)
+		want := freshInit(k)
+		got := flat(st)
+		if j := bitsEqual(got, want); j != -1 {
+			fail("%s: InitialiseStates(%d) on the long-lived model differs from a fresh model object (element %d: %v vs %v; widths %d vs %d)",
+				what, k, j, at(got, j), at(want, j), len(got), len(want))
+		}
+		// arrays handed out earlier must be other objects: unchanged by this call ...
+		for _, h := range earlier {
+			if j := bitsEqual(flat(h.arr), h.want); j >= 0 {
+				fail("%s: the array returned by an earlier InitialiseStates (%s) changed (element %d)", what, h.what, j)
+			}
+		}
+		return st
+	}
+	hold := func(st data.ND2Float64, what string) { earlier = append(earlier, held{st, flat(st), what}) }
+	s1 := check("first call", n)
+	runOn(m, s1) // the first simulation dirties ITS state array
+	hold(s1, "first call, after its Run")
+	s2 := check("second call after a Run", n)
+	// ... and writing the new one must not reach them
+	for i := 0; i < s2.Len(0); i++ {
+		for j := 0; j < s2.Len(1); j++ {
+			s2.Set2(i, j, canary(i+j))
+		}
+	}
+	for _, h := range earlier {
+		if j := bitsEqual(flat(h.arr), h.want); j >= 0 {
+			fail("writing the array of the second InitialiseStates changed the array of the %s (element %d): the two simulations share one state array", h.what, j)
+		}
+	}
+	hold(s2, "second call, overwritten")
+	s3 := check("third call (untouched second simulation)", n)
+	hold(s3, "third call")
+	s4 := check("different cell count", n+1)
+	runOn(m, s4)
+	hold(s4, "n+1 call, after its Run")
+	check("back to the first cell count", n)
+	m.ApplyParameters(pa)
+	s5 := check("after re-applying the parameters", n)
+	runOn(m, s5)
+	check("after re-applying the parameters and a Run", n)
+	return res
+}
+
+func at(a []float64, j int) interface{} {
+	if j >= 0 && j < len(a) {
+		return a[j]
+	}
+	return "-"
+}
+
 func descDump() *result {
 	res := &result{Cmd: "DESC", Ok: true, Extra: map[string]interface{}{}}
 	names := []string{}
@@ -1096,6 +1296,8 @@ func main() {
 			r = descDump()
 		case "OUTALLOC":
 			r = outAlloc(f[1:])
+		case "INITSEQ":
+			r = initSeq(f[1:])
 		default:
 			r = &result{Cmd: f[0], Fails: []string{"unknown command"}}
 		}
